@@ -202,6 +202,8 @@ class Bundle:
     """
 
     def __init__(self, *, name: Optional[str] = None):
+        if name is not None and not isinstance(name, str):
+            raise TypeError(f"Invalid Bundle name {name!r}: must be a string")
         self.name: Optional[str] = name
         self.roles: Optional[RoleSet] = None
         self.signals: Dict[str, "Signal"] = dict()
